@@ -34,6 +34,11 @@ def documents(secret_path):
     d["grad_rho"] = f'<svg {NS} viewBox="0 0 9 9"><defs>{grad("g", "h")}{grad("h", "g")}{grad("x", "g")}</defs><rect width="5" height="5" fill="url(#x)"/></svg>'
     d["grad_rho_nested"] = f'<svg {NS} viewBox="0 0 9 9"><defs>{grad("g", "h")}{grad("h", "g")}</defs><g><g><defs>{grad("x", "g")}</defs></g></g><rect width="5" height="5" fill="url(#x)"/></svg>'
     d["grad_dangling"] = f'<svg {NS} viewBox="0 0 9 9"><defs>{grad("g", "nope")}</defs><rect width="5" height="5" fill="url(#g)"/></svg>'
+    long_id = "gradient-with-a-rather-long-identifier-0123456789"
+    lg = f'<linearGradient id="{long_id}"><stop offset="0" stop-color="red"/></linearGradient>'
+    d["paint_fallback_colour_long_id"] = f'<svg {NS} viewBox="0 0 9 9"><defs>{lg}</defs><rect width="5" height="5" fill="url(#{long_id}) red" transform="translate(1 1)"/></svg>'
+    d["paint_unterminated_url_long_id"] = f'<svg {NS} viewBox="0 0 9 9"><defs>{lg}</defs><g transform="scale(2)"><rect width="5" height="5" fill="url(#{long_id}"/></g></svg>'
+    d["clip_url_with_space_long_id"] = f'<svg {NS} viewBox="0 0 9 9"><clipPath id="{long_id}">{rect}</clipPath><rect width="5" height="5" clip-path="url(#{long_id} )"/></svg>'
     d["bad_number"] = f'<svg {NS} viewBox="0 0 9 9"><rect width="abc" height="5"/></svg>'
     d["bad_path"] = f'<svg {NS} viewBox="0 0 9 9"><path d="M0,0 L1 Q"/></svg>'
     d["bad_transform"] = f'<svg {NS} viewBox="0 0 9 9"><rect width="1" height="1" transform="rotate(x)"/></svg>'
